@@ -126,6 +126,7 @@ impl Judge for MonitorJudge
                 ("aborted", out.aborted as u64),
                 ("polled_runs", out.polled_runs as u64),
                 ("cross_sender_reorder", out.cross_sender_reorder as u64),
+                ("marks_reassigned_among_interchangeable_postponed", out.marks_reassigned as u64),
                 ("max_depth_seen", out.max_depth as u64),
             ],
         }
